@@ -362,9 +362,18 @@ class Heap:
         raise Raised('KeyError', self.version, lineno)
 
 
-_EXC_PARENTS = {'KeyError': 'LookupError', 'IndexError': 'LookupError', 'LookupError': 'Exception', 'ValueError': 'Exception', 'TypeError': 'Exception',
-                'AttributeError': 'Exception', 'StopIteration': 'Exception', 'AssertionError': 'Exception', 'UnicodeDecodeError': 'ValueError',
-                'UnicodeError': 'ValueError', 'OSError': 'Exception', 'IOError': 'Exception', 'NotImplementedError': 'RuntimeError', 'RuntimeError': 'Exception'}
+def _builtin_exception_parents():
+    """parent of every builtin exception class, by name (CPython's own hierarchy; IOError / EnvironmentError are names of OSError)"""
+    import builtins
+    out = {}
+    for nm in dir(builtins):
+        c = getattr(builtins, nm)
+        if isinstance(c, type) and issubclass(c, BaseException) and c is not BaseException:
+            out[nm] = c.__mro__[1].__name__ if c.__name__ == nm else c.__name__      # an alias leads to the class it names
+    return out
+
+
+_EXC_PARENTS = _builtin_exception_parents()
 
 
 def _handler_matches(htype, exc):
@@ -1701,14 +1710,22 @@ class Interp:
     def sym_format_percent(self, fmt, arg):
         vals = list(arg) if isinstance(arg, tuple) else [arg]
         import re as _re
-        pieces = _re.split(r'(%s|%%)', fmt)
+        pieces = _re.split(r'(%s|%r|%d|%%)', fmt)
         out = []
         for p in pieces:
-            if p == '%s':
+            if p in ('%s', '%r', '%d'):
                 if not vals:
                     raise AnalysisError('heap model: not enough arguments for format string')
                 v = vals.pop(0)
-                if not isinstance(v, (str, SStr)):
+                if p == '%d' and isinstance(v, int) and not isinstance(v, bool):
+                    v = str(v)
+                elif p == '%r' and isinstance(v, str):
+                    v = repr(v)
+                elif p == '%r' and isinstance(v, SStr) and v.concrete() is not None:
+                    v = repr(v.concrete())
+                elif p == '%r' and isinstance(v, SStr):
+                    v = SStr(["'", v, "'"])      # (only used in messages: the quoting of an undecided text is not modelled further)
+                elif not isinstance(v, (str, SStr)):
                     v = '<%s>' % type(v).__name__      # rendered text of other objects (only used in messages)
                 out.append(v)
             elif p == '%%':
